@@ -9,6 +9,9 @@ J_M2000, J_4000 = 990557.5, 3182029.5
 K_LT = 0.0057755183
 
 
+_SHARED = {}
+
+
 def _cls(pl):
     return getattr(__import__("pymeeus." + pl, fromlist=[pl]), pl)
 
@@ -53,7 +56,12 @@ def gen_planets(seed, shard, n):
                 pass
         if i % 8 == 5 and specials.get(pl):
             t = specials[pl].pop()
-        ep = Epoch(t)
+        if i % 3 == 2:
+            # the process's ONE long-lived Epoch, set() to this instant after it has served other instants and planets
+            ep = _SHARED.setdefault("e", Epoch(2451545.0))
+            ep.set(t)
+        else:
+            ep = Epoch(t)
         jb = ep.jde()
         ra, dec, elong = c.geocentric_position(ep)
         ja = ep.jde()
